@@ -142,7 +142,8 @@ CHECKS = {
  'C09': dict(
   technique='TLA+ model of EnvVarDict (EnvVars.tla) model-checked with TLC and bound by replaying TLC-generated '
             'operation sequences on the real class with trace validation; save/load round trips incl. down-converted '
-            'older formats and end-to-end configure/regenerate/env/run histories validated by TLC (Config_Trace.tla)',
+            'older formats and end-to-end configure/regenerate/env/run histories validated by TLC (Config_Trace.tla); '
+            'the invariant is additionally shown inductive (any number of operations) with Apalache (EnvVars_Ind.tla)',
   text='TLC proves Apply(changes, initial) = current on all operation sequences up to the bound of the design model '
        'and validates thousands of recorded operation sequences of the real class against dict semantics and that '
        'invariant; every format version 7..17 is produced by inverting the upgrade steps and must load to an equal '
@@ -150,7 +151,7 @@ CHECKS = {
        '/ run under perturbed ambient environments, working directories and build-directory spellings, and must show '
        'byte-identical outputs and the saved variables.',
   note='trusted: the down-converter in harness/checks/c09.py (inverse of the documented upgrade steps), stub compiler, '
-       'TLC; mopack is not exercised',
+       'TLC, Apalache/z3; mopack is not exercised',
   design='5/C09'),
  'C13': dict(
   technique='TLC enumerates the invocation-context space (Determ_Gen.tla) and generates projects (Script_Gen.tla); '
